@@ -21,6 +21,17 @@ import re
 from vlib import read_jsonl, canon_hash
 
 
+def load_corpus_dir(pid):
+    """minimised / interesting cases kept as files in corpus/<pid>/*.json, run first"""
+    d = os.path.join(os.path.dirname(os.path.dirname(os.path.abspath(__file__))), "corpus", pid)
+    out = []
+    if os.path.isdir(d):
+        for fn in sorted(os.listdir(d)):
+            if fn.endswith(".json"):
+                out.append(json.load(open(os.path.join(d, fn))))
+    return out
+
+
 # ------------------------------------------------------------------ scenario generation
 class Gen:
     def __init__(self, rng, name, max_idle, ncallers):
@@ -410,7 +421,11 @@ def run(ctx):
     ctx.assumptions += ["request/response handlers reply or close the connection (no production caller uses SendProtoNoReply/SendProtoManyNoReply; they are outside the model)",
                         "one Write call = one request frame (as in SendProtoWithMetadata / SendBatchProto)"]
     rng = ctx.rng
-    scs = corpus(rng) + [gen_scenario(rng, i) for i in range(120 if ctx.thorough else 36)]
+    scs = load_corpus_dir('C28') + corpus(rng) + [gen_scenario(rng, i) for i in range(120 if ctx.thorough else 26)]
+    if ctx.replay_path and os.path.exists(ctx.replay_path):  # bin/check C28 --replay replays/C28-...json
+        rp = json.load(open(ctx.replay_path)).get("replay", {})
+        if isinstance(rp.get("scenario"), dict):
+            scs.insert(0, dict(rp["scenario"], name="replay-" + rp["scenario"].get("name", "x")))
     for fn in ("c28_traces.jsonl", "c28_stress.jsonl"):
         p = os.path.join(ctx.work, fn)
         if os.path.exists(p):
